@@ -209,6 +209,36 @@ func (g *Grammar) ExprString(e *syntax.Expr) string {
 	}
 }
 
+// BisonRHS renders the right-hand side of a rule for the Bison export. It is derived from the
+// symbols the parser tables were built from, so nonterminals extracted from mid-rule actions show
+// up as well. Terminals are spelled by their IDs, nonterminals by their names.
+func (g *Grammar) BisonRHS(r *Rule) string {
+	var sb strings.Builder
+	for _, sym := range r.RHS {
+		if sb.Len() > 0 {
+			sb.WriteByte(' ')
+		}
+		switch {
+		case sym.IsStateMarker():
+			sb.WriteString("/*.")
+			sb.WriteString(g.Parser.Tables.Markers[sym.AsMarker()].Name)
+			sb.WriteString("*/")
+		case int(sym) < g.NumTokens:
+			sb.WriteString(g.Syms[sym].ID)
+		default:
+			sb.WriteString(g.Syms[sym].Name)
+		}
+	}
+	if sb.Len() == 0 {
+		sb.WriteString("%empty")
+	}
+	if r.Precedence > 0 {
+		sb.WriteString(" %prec ")
+		sb.WriteString(g.Syms[r.Precedence].ID)
+	}
+	return sb.String()
+}
+
 // RuleString returns a user-friendly rendering of a given rule.
 func (g *Grammar) RuleString(r Rule) string {
 	var sb strings.Builder
